@@ -252,7 +252,7 @@ class GRng(GraphBase):
         return {"img": c["img"], "psf": c["psf"]}
 
     def inputs(self, c):
-        return {"image": c["img"], "psf": c["psf"], "exposure_time_map": c["exp"]}
+        return {"image": c["img"].array, "psf": c["psf"].array, "exposure_time_map": c["exp"].array}
 
 
 # ======================================================================================== G-data
@@ -357,7 +357,7 @@ class GData(GraphBase):
         return {k: c[k] for k in ("ds", "pad", "full", "dsn", "mask2")}
 
     def inputs(self, c):
-        return {"data": c["data"], "noise_map": c["noise"], "psf": c["psf"]}
+        return {"data": c["data"].array, "noise_map": c["noise"].array, "psf": c["psf"].array}
 
 
 # ======================================================================================== G-inv
@@ -436,7 +436,62 @@ class GInv(GraphBase):
 
     def inputs(self, c):
         return {"MapperValued.values": c["values"], "MapperValued.values(no pixel mask)": c["values2"], "MapperValued.mesh_pixel_mask": c["pixmask"], "settings": c["settings"],
-                "dataset.data": c["ds"].data, "dataset.noise_map": c["ds"].noise_map, "dataset.psf": c["ds"].psf}
+                "dataset.data": c["ds"].data.array, "dataset.noise_map": c["ds"].noise_map.array, "dataset.psf": c["ds"].psf.array}
+
+
+# ======================================================================================== G-interf
+
+INTERF_READS = ["operated_mapping_matrix", "data_vector", "curvature_matrix", "regularization_matrix", "curvature_reg_matrix", "reconstruction",
+                "mapped_reconstructed_data", "mapped_reconstructed_image", "regularization_term", "log_det_curvature_reg_matrix_term",
+                "log_det_regularization_matrix_term", "mapping_matrix"]
+
+
+class GInterf(GraphBase):
+    """Interferometer inversion (direct Fourier transform, mapping formalism) over visibilities with a complex noise map."""
+
+    def __init__(self, preload=False, seed=0, variant="rect+funcS"):
+        super().__init__()
+        import autoarray as aa
+
+        self.aa, self.preload, self.seed, self.variant = aa, preload, seed, variant
+        self.name = "interf[%s,%s]" % (variant, "preload" if preload else "no-preload")
+        E = self.ev
+        for k in INTERF_READS:
+            E("read inv.%s" % k, (lambda k: lambda c: getattr(c["inv"], k))(k))
+        E("read transformer.visibilities_from(image)", lambda c: _arr(c["tr"].visibilities_from(image=c["image"])))
+        E("read transformer.image_from(visibilities)", lambda c: _arr(c["tr"].image_from(visibilities=c["vis"])))
+        E("read transformer.transform_mapping_matrix(M)", lambda c: _arr(c["tr"].transform_mapping_matrix(mapping_matrix=c["M"])))
+        E("read vis.amplitudes", lambda c: _arr(c["vis"].amplitudes))
+        E("read noise_map.weight_list_ordered_1d", lambda c: _arr(c["nm"].weight_list_ordered_1d))
+        E("read mapper.mapping_matrix", lambda c: _arr(c["objs"][0].mapping_matrix))
+        E("construct second inversion on same dataset/objects -> data_vector",
+          lambda c: _arr(aa.Inversion(dataset=c["dsi"], linear_obj_list=c["objs"], settings=self._settings()).data_vector))
+
+    def _settings(self):
+        return fix_inv.settings(self.aa, False, diag=1e-3)
+
+    def build(self):
+        aa = self.aa
+        fx = fix_inv.make_dataset([5, 5], [3, 3], 0b101111111, psf_kind="nonneg", seed=self.seed, sub=1)
+        kinds, regs = {"rect+funcS": (["rectA", "funcS"], [True, False]), "rect": (["rectA"], [True])}[self.variant]
+        objs = [fix_inv.make_obj(fx, k, reg=r, seed=self.seed) for k, r in zip(kinds, regs)]
+        r = dom.rng(self.seed, "c11interf")
+        uv = np.array([[10.0, -20.0], [35.0, 5.0], [-15.0, 40.0], [0.0, 0.0], [22.0, 31.0]]) * 1e3
+        tr = aa.TransformerDFT(uv_wavelengths=uv, real_space_mask=fx["mask"], preload_transform=self.preload)
+        vis = aa.Visibilities(visibilities=r.normal(size=5) + 1j * r.normal(size=5))
+        nm = aa.VisibilitiesNoiseMap(visibilities=(0.5 + r.uniform(size=5)) + 1j * (0.7 + r.uniform(size=5)))
+        dsi = aa.DatasetInterface(data=vis, noise_map=nm, transformer=tr)
+        inv = aa.Inversion(dataset=dsi, linear_obj_list=objs, settings=self._settings())
+        image = aa.Array2D(values=fx["data"].copy(), mask=fx["mask"])
+        M = np.array(objs[0].mapping_matrix).copy() * np.where(np.arange(objs[0].params) % 2 == 0, 1.0, -0.5)[None, :]
+        return {"fx": fx, "objs": objs, "tr": tr, "vis": vis, "nm": nm, "dsi": dsi, "inv": inv, "image": image, "M": M}
+
+    def roots(self, c):
+        return {"objs": c["objs"], "tr": c["tr"], "vis": c["vis"], "nm": c["nm"], "inv": c["inv"], "dsi": c["dsi"]}
+
+    def inputs(self, c):
+        # raw buffers only: the structures themselves legitimately gain cached entries when read
+        return {"image": c["image"].array, "mapping matrix argument": c["M"], "visibilities": c["vis"].array, "noise_map": c["nm"].array}
 
 
 # ======================================================================================== G-fit
@@ -515,7 +570,7 @@ class GFit(GraphBase):
         return {"fit": c["fit"], "ds": c["ds"], "inv": c["inv"], "objs": c["objs"]}
 
     def inputs(self, c):
-        return {"model_data": c["model_in"], "dataset.data": c["ds"].data, "dataset.noise_map": c["ds"].noise_map}
+        return {"model_data": c["model_in"].array, "dataset.data": c["ds"].data.array, "dataset.noise_map": c["ds"].noise_map.array}
 
 
 # ======================================================================================== G-defaults
@@ -664,6 +719,7 @@ def graph_keys(tier, seed):
             keys.append(("inv", variant, wt, seed, False))
     keys.append(("inv", "rect", False, seed, True))
     keys += [("fit", False, seed, True), ("fit", True, seed, True), ("fit", False, seed, False)]
+    keys += [("interf", False, seed, "rect+funcS"), ("interf", True, seed, "rect")]
     if tier == "thorough":
         keys += [("struct", seed, 1), ("data", seed, 1)]
     return keys
@@ -672,8 +728,8 @@ def graph_keys(tier, seed):
 def depth_for(key, tier):
     kind = key[0]
     if tier == "quick":
-        return {"struct": 4, "rng": 3, "defaults": 3, "data": 3, "inv": 2, "fit": 4}[kind]
-    return {"struct": 6, "rng": 4, "defaults": 4, "data": 4, "inv": 3, "fit": 6}[kind]
+        return {"struct": 4, "rng": 3, "defaults": 3, "data": 3, "inv": 2, "fit": 4, "interf": 2}[kind]
+    return {"struct": 6, "rng": 4, "defaults": 4, "data": 4, "inv": 3, "fit": 6, "interf": 3}[kind]
 
 
 _G = {}
@@ -691,6 +747,8 @@ def graph_for(key):
             _G[key] = GData(seed=key[1], variant=key[2])
         elif kind == "defaults":
             _G[key] = GDefaults(seed=key[1])
+        elif kind == "interf":
+            _G[key] = GInterf(preload=key[1], seed=key[2], variant=key[3])
         elif kind == "fit":
             _G[key] = GFit(wt=key[1], seed=key[2], with_inversion=key[3])
         elif kind == "inv":
